@@ -355,6 +355,7 @@ func (g *VCGen) havocAllBut(pre *State, keep []modLoc) *State {
 	g.assume(fmt.Sprintf("(>= %s %s)", nr, pre.nextRef))
 	post.nextRef = nr
 	var facts []string
+	keep = append(append([]modLoc{}, keep...), g.callbacksKeepLocs(pre)...)
 	for _, l := range keep {
 		a, b := g.heapTerm(pre, l.heap), g.heapTerm(post, l.heap)
 		switch l.kind {
@@ -431,10 +432,70 @@ func (g *VCGen) havocAllBut(pre *State, keep []modLoc) *State {
 			facts = append(facts, fmt.Sprintf("(= (select %s %s) (select %s %s))", g.heapTerm(post, heap), sv.T, g.heapTerm(pre, heap), sv.T))
 		}
 	}
+	facts = append(facts, g.snapshotSliceFacts(pre, post)...)
 	if len(facts) > 0 {
 		g.assumeHere(and(facts...))
 	}
 	return post
+}
+
+// callbacksKeepLocs: "callbackskeep L": the function's own private state, which the open-world calls it makes are assumed
+// not to touch (reported as an assumption)
+func (g *VCGen) callbacksKeepLocs(pre *State) []modLoc {
+	if g.fc == nil || len(g.fc.CallbacksKeep) == 0 {
+		return nil
+	}
+	env := g.ownEnv(pre)
+	g.usedTrusted["callbackskeep: calls into sub-resources do not touch this object's own state (declared in its contract)"] = true
+	return g.modLocs(env, g.fc.CallbacksKeep)
+}
+
+// snapshotSliceFacts: a slice returned by a callee whose (trusted) contract carries prop "snapshot", and which this
+// function only measures, indexes and ranges over, keeps its elements across open-world calls: the contract's stated
+// justification is that nobody else can reach the backing array while the caller uses it.
+func (g *VCGen) snapshotSliceFacts(pre, post *State) []string {
+	var facts []string
+	for v, sv := range g.vals {
+		call, ok := v.(*ssa.Call)
+		if !ok {
+			continue
+		}
+		st, ok := call.Type().Underlying().(*types.Slice)
+		if !ok {
+			continue
+		}
+		callee := call.Common().StaticCallee()
+		if callee == nil {
+			continue
+		}
+		fc := g.eng.contractFor(callee)
+		if fc == nil || !hasProp(fc.Props, "snapshot") {
+			continue
+		}
+		okUse := true
+		for _, r := range *call.Referrers() {
+			switch u := r.(type) {
+			case *ssa.IndexAddr, *ssa.DebugRef:
+			case *ssa.Call:
+				if b, isB := u.Common().Value.(*ssa.Builtin); !isB || (b.Name() != "len" && b.Name() != "cap") {
+					okUse = false
+				}
+			default:
+				okUse = false
+			}
+		}
+		if !okUse {
+			continue
+		}
+		heap := g.so.sliceHeapFor(st.Elem())
+		a, b := g.heapTerm(pre, heap), g.heapTerm(post, heap)
+		if a == b {
+			continue
+		}
+		facts = append(facts, fmt.Sprintf("(forall ((fi Int)) (! (= (select (select %s (s.base %s)) fi) (select (select %s (s.base %s)) fi)) :pattern ((select (select %s (s.base %s)) fi))))", b, sv.T, a, sv.T, b, sv.T))
+		g.usedTrusted["snapshot slice: the result of "+callee.String()+" is not modified by anyone while the caller uses it (declared by its contract)"] = true
+	}
+	return facts
 }
 
 // privateAlloc: the cell is only ever loaded, stored to, or field-selected (its address does not escape)
